@@ -143,9 +143,9 @@ def pOp (i : Nat) : P Op := do
   let sp ← tok
   let ue ← tok
   let ow ← pBool
-  let st ← pBool
+  let st ← tok                                   -- 0: Path, 1: str, and with a trailing `d`: a dictionary of shapes
   pure { kind := k, spelling := sp.toList, userExt := if ue == "-" then none else some ue.toList,
-         overwrite := ow, content := i, asStr := st }
+         overwrite := ow, content := if st.endsWith "d" then i + 500000 else i, asStr := st.startsWith "1" }
 
 /-- `E {name value}`: the environment variables `_norm_path` can see -/
 def pEnv : P Env := do
@@ -166,7 +166,8 @@ source text by `GenProps/C16SrcIO.lean`) run on a model file system -/
 
 def xopOf (o : Op) : XOp :=
   let fp := if o.asStr then Fp.str o.spelling else Fp.path o.spelling
-  let obj : ExObj := ⟨o.content, true, true⟩
+  -- a dictionary of shapes is marked by an offset on the content number (parsing glue only)
+  let obj : ExObj := ⟨o.content % 500000, decide (o.content < 500000), true⟩
   match o.kind with
   | .landmark => .landmark (exporterTable .landmark) obj fp o.userExt o.overwrite
   | .image => .image (exporterTable .image) obj fp o.userExt o.overwrite
@@ -301,10 +302,13 @@ def step (toks : List String) : String :=
       let xs := ops.map xopOf
       let fsb0 : FSb := fun q => (prePaths.idxOf? q).map fun j => ⟨j + 1000, none, "", false, [], true⟩
       let xpaths := (prePaths ++ xs.map fun x => targetKey e c x.fp).eraseDups
-      let xres := runX e c fsb0 xs
-      let xlisting := xpaths.filterMap fun p => (xres.2 p).map fun b => fPath p ++ " " ++ toString b.content
-      "ok " ++ show_ (runHistoryCoded e c fs0 ops) ++ " || " ++ show_ (runHistory e c fs0 ops) ++ " || " ++
+      -- both variants of export_landmark_file: the dictionary check before the guard (as coded), the guard first
+      let xshow := fun (gf : Bool) =>
+        let xres := runX gf e c fsb0 xs
+        let xlisting := xpaths.filterMap fun p => (xres.2 p).map fun b => fPath p ++ " " ++ toString b.content
         "".intercalate (xres.1.map fXOutcome) ++ " | " ++ " ".intercalate xlisting
+      "ok " ++ show_ (runHistoryCoded e c fs0 ops) ++ " || " ++ show_ (runHistory e c fs0 ops) ++ " || " ++
+        xshow false ++ " || " ++ xshow true
     | none => "bad-op"
   | "ljsondoc" :: r => match runP (pList pShape) r with
     | some gs => match ljsonExporterSpec (.multi gs) with
